@@ -330,6 +330,7 @@ struct Tally {
     set_pixel_calls: u64,
     draw_iter_calls: u64,
     pts_in: u64,
+    pts_in_single: u64,
     pts_out: u64,
     panics: u64,
     compares: u64,
@@ -493,13 +494,17 @@ impl<'a> Chk<'a> {
                 Some((px, py)) => {
                     any_in = true;
                     self.t.pts_in += 1;
+                    if single {
+                        self.t.pts_in_single += 1;
+                    }
                     let t = self.geo.target(px, py, ci);
                     for k in 0..t.n {
                         let i = t.idx[k];
-                        if i >= n {
+                        if i >= exposed.min(n) {
+                            // a byte the display does not expose cannot legitimately be written:
+                            // leave the shadow alone there so that any change shows up as a clobber
                             beyond = true;
-                        }
-                        if i < self.shadow.len() {
+                        } else {
                             self.shadow[i] = self.shadow[i] & !t.mask[k] | t.val[k];
                         }
                     }
@@ -533,10 +538,9 @@ impl<'a> Chk<'a> {
             if let Some((px, py)) = self.geo.map(rot, x, y) {
                 let t = self.geo.target(px, py, ci);
                 for k in 0..t.n {
-                    if t.idx[k] < covered.len() {
+                    if t.idx[k] < exposed.min(n) {
                         covered[t.idx[k]] |= t.mask[k];
-                    }
-                    if t.idx[k] >= n && outside.is_none() {
+                    } else if outside.is_none() {
                         outside = Some((t.idx[k], k));
                     }
                 }
@@ -677,7 +681,7 @@ impl<'a> Chk<'a> {
         rep.count("draw_iter_calls", t.draw_iter_calls);
         rep.count("points_in_bounds_checked", t.pts_in);
         rep.count("points_out_of_bounds_checked", t.pts_out);
-        rep.count("nontrivial_items", t.pts_in);
+        rep.count("nontrivial_items", t.pts_in_single);
         rep.count("panics_caught", t.panics);
         rep.count("buffers_compared", t.compares);
         rep.count("bytes_compared", t.bytes);
@@ -808,7 +812,7 @@ fn var_case<C: Ck>(w: u32, h: u32, seed: u64, rep: &mut Report) {
                     let start = batch_colour(seed ^ 0x51, x, y, ncol);
                     for k in 0..ncol {
                         let ci = (start + k) % ncol;
-                        let via_iter = (x + 2 * y + k as i32).rem_euclid(5) == 0;
+                        let via_iter = x.wrapping_add(y.wrapping_mul(2)).wrapping_add(k as i32).rem_euclid(5) == 0;
                         if !sampled && rot == 1 && geo.map(rot, x, y).is_some() && w >= 3 && h >= 2 && x == 1 && y == 1 {
                             sampled = true;
                             let (px, py) = geo.map(rot, x, y).unwrap();
@@ -895,11 +899,11 @@ fn alias_case(a: &Alias, rot: u8, rows: Option<(u32, u32)>, seed: u64, rep: &mut
         chk.after_call(rep, rot, "draw_iter", &pts, r.err().map(panic_msg), d.bytes(), n);
     }
     let mut sampled = false;
-    let mut one = |chk: &mut Chk, rep: &mut Report, d: &mut Box<dyn Fb>, x: i32, y: i32| {
+    let mut one = |chk: &mut Chk, rep: &mut Report, d: &mut Box<dyn Fb>, x: i32, y: i32, allow_iter: bool| {
         let start = batch_colour(seed ^ 0x51, x, y, ncol);
         for k in 0..ncol {
             let ci = (start + k) % ncol;
-            let via_iter = (x + 3 * y + k as i32).rem_euclid(11) == 0;
+            let via_iter = allow_iter && x.wrapping_add(y.wrapping_mul(3)).wrapping_add(k as i32).rem_euclid(11) == 0;
             let want_sample = !sampled && x == 5 && y == 0;
             let before = if want_sample {
                 geo.map(rot, x, y).map(|(px, py)| {
@@ -944,7 +948,7 @@ fn alias_case(a: &Alias, rot: u8, rows: Option<(u32, u32)>, seed: u64, rep: &mut
             // exhaustive: every pixel of the row chunk, every colour
             for y in y0..y1 {
                 for x in 0..lw {
-                    one(&mut chk, rep, &mut d, x as i32, y as i32);
+                    one(&mut chk, rep, &mut d, x as i32, y as i32, true);
                 }
                 for ci in 0..ncol {
                     rep.nontrivial(h64(&[gh, rot as u64, ci as u64, y as u64]));
@@ -954,7 +958,7 @@ fn alias_case(a: &Alias, rot: u8, rows: Option<(u32, u32)>, seed: u64, rep: &mut
                 let ex = extremes(a.w, a.h);
                 for &y in &ex {
                     for &x in &ex {
-                        one(&mut chk, rep, &mut d, x, y);
+                        one(&mut chk, rep, &mut d, x, y, false);
                     }
                 }
             }
@@ -964,19 +968,19 @@ fn alias_case(a: &Alias, rot: u8, rows: Option<(u32, u32)>, seed: u64, rep: &mut
             let (lwi, lhi) = (lw as i32, lh as i32);
             for x in -1..=lwi {
                 for y in [-1, 0, lhi - 1, lhi] {
-                    one(&mut chk, rep, &mut d, x, y);
+                    one(&mut chk, rep, &mut d, x, y, true);
                 }
             }
             for y in 1..lhi - 1 {
                 for x in [-1, 0, lwi - 1, lwi] {
-                    one(&mut chk, rep, &mut d, x, y);
+                    one(&mut chk, rep, &mut d, x, y, true);
                 }
             }
             let mut y = 0;
             while y < lhi {
                 let mut x = 0;
                 while x < lwi {
-                    one(&mut chk, rep, &mut d, x, y);
+                    one(&mut chk, rep, &mut d, x, y, true);
                     x += 7;
                 }
                 for ci in 0..ncol {
@@ -991,7 +995,7 @@ fn alias_case(a: &Alias, rot: u8, rows: Option<(u32, u32)>, seed: u64, rep: &mut
             let ex = extremes(a.w, a.h);
             for &y in &ex {
                 for &x in &ex {
-                    one(&mut chk, rep, &mut d, x, y);
+                    one(&mut chk, rep, &mut d, x, y, false);
                 }
             }
         }
@@ -1073,7 +1077,7 @@ pub fn run(ctx: &Ctx) -> Report {
     rep.count("cases", cases.len() as u64);
     rep.count("aliases_covered", if miri { 0 } else { al.iter().filter(|a| want(a.name)).count() as u64 });
     rep.note("evaluation = one real set_pixel/draw_iter call followed by a comparison of the WHOLE real buffer (VarDisplay: whole backing slice incl. 64-byte sentinel tail) with the shadow buffer of the independent model");
-    rep.note("distinct_nontrivial hashes one entry per (group, geometry, bwrbit, rotation, colour[, logical row for aliases]) that contained in-bounds points; the exact number of in-bounds point draws compared with the model is counters.nontrivial_items");
+    rep.note("distinct_nontrivial hashes one entry per (group, geometry, bwrbit, rotation, colour[, logical row for aliases]) that contained in-bounds points; the exact number of single-point in-bounds draws (distinct (group, geometry, bwrbit, rotation, colour, point) up to the few extremes that coincide with grid points) compared with the model is counters.nontrivial_items; points_in_bounds_checked additionally counts the pixels of the batch draw_iter calls");
     rep.note("VarDisplay backing slices start with seeded random bytes (so cleared bits are observable); alias buffers are first painted with a seeded random colour per pixel through one draw_iter call that is itself checked");
     rep.note("tag w%8!=0 marks VarDisplay<TriColor> geometries with w%8 in 1..=4, the widths for which ceil(2w/8) != 2*ceil(w/8); widths with w%8 in 5..=7 size correctly and get ordinary tags");
     if miri {
